@@ -52,12 +52,14 @@ EXPECTED_PROBES = ["op_set_geometry", "op_concat", "op_pickle", "op_cx", "op_col
                    "op_set_geometry_inplace", "op_concat_of_empty_frames",
                    "dask_two_frames_same_schema_other_active",
                    "dask_parquet_default_after_geometry_kw", "dask_parquet_columns_reordered",
-                   "dask_parquet_fully_pruned"]
+                   "dask_parquet_fully_pruned", "op_build_sindex", "dask_build_sindex"]
 
 PANDAS_OPS = ("set_geometry", "set_geometry_same_then_inplace", "iloc", "mask", "query", "head",
               "take", "sample", "sort_values", "copy", "colsubset", "colsubset_other",
-              "colsubset_nogeo", "cx", "pickle", "concat", "concat_empty", "assign", "rename")
+              "colsubset_nogeo", "cx", "pickle", "concat", "concat_empty", "assign", "rename",
+              "build_sindex")
 DASK_OPS = ("d_from_pandas", "d_set_geometry", "d_persist", "d_compute", "d_parquet", "d_concat",
+            "d_build_sindex",
             "d_repartition", "d_filter", "d_concat_other_active")
 
 
@@ -287,6 +289,9 @@ def _drive(case, root, fs, probes, sig, done):
                     continue
                 ddf = _guard("Dask row filter", lambda: ddf[ddf["v"] % (st["k"] + 1) != 0], sig)
                 probes["dask_filter"] = 1
+            elif op == "d_build_sindex":
+                ddf = _guard("Dask build_sindex", lambda: ddf.build_sindex(), sig)
+                probes["dask_build_sindex"] = 1
             elif op == "d_persist":
                 ddf = _guard("persist", lambda: ddf.persist(), sig)
                 probes["dask_persist"] = 1
@@ -427,6 +432,11 @@ def _drive(case, root, fs, probes, sig, done):
                 continue
             df = _guard("sort_values", lambda: df.sort_values("v", ascending=bool(st["bits"] & 1)),
                         sig)
+        elif op == "build_sindex":
+            # an R-tree built for the column that is active NOW; what later steps derive from
+            # this frame (set_geometry to another column, copies) must not query it for theirs
+            df = _guard("build_sindex", lambda: df.build_sindex(), sig)
+            probes["op_build_sindex"] = 1
         elif op == "copy":
             df = _guard("copy", lambda: df.copy(), sig)
         elif op == "colsubset":
